@@ -233,7 +233,7 @@ theorem leaf_clause (E : Env) (X Y Z : Nat) (hE : EnvPy E X Y Z) (l : Leaf) (hc 
   leafClause_of_comp E X Y Z hE l hc hs hk
 
 /-- **the one-sided part against poetry's own `validate`** (leaf invariant `PyG E` = coherent, evaluable single
-markers, python ones of the exact shape): if the marker validates to true on the environment of `X.Y.Z`, the
+markers with canonical variable names, python ones of the exact shape): if the marker validates to true on the environment of `X.Y.Z`, the
 range admits `X.Y.Z`.  Remaining hypotheses: the leaf specification `S` and `SplitSound`. -/
 theorem pyConstraint_upper_validate_partial (E : Env) (X Y Z : Nat) (hE : EnvPy E X Y Z)
     (S : LeafSpec (leafEval E) (PyG E)) (hSp : SplitSound X Y Z) (m : M) (g : VC) (hg : M.Good (PyG E) m)
@@ -241,18 +241,18 @@ theorem pyConstraint_upper_validate_partial (E : Env) (X Y Z : Nat) (hE : EnvPy 
   gpc_upper_validate E X Y Z hE S hSp m g hg h hv
 
 /-- **exactness against poetry's own `validate`** for python-only markers: `validate` returns exactly
-`allows(X.Y.Z)` of the range. -/
+`allows(X.Y.Z)` of the range.  That the DNF mentions python variables only is now proved (`dnf_vars`: the
+simplifier mentions no new variable, relative to `S` and the leaf-level fact `ReparseNames`). -/
 theorem pyConstraint_exact_validate_partial (E : Env) (X Y Z : Nat) (hE : EnvPy E X Y Z)
     (S : LeafSpec (leafEval E) (PyG E)) (hSp : SplitSound X Y Z) (m : M) (g : VC) (hg : M.Good (PyG E) m)
-    (hvars : ∀ n ∈ M.vars m, pyNames.contains n = true)
+    (hvars : ∀ n ∈ M.vars m, pyNames.contains n = true) (HR : ReparseNames)
     (hne : ∀ d, dnf defaultFuel [] m = .ok d → d ≠ .empty)
-    (hpy : ∀ d, dnf defaultFuel [] m = .ok d → ∀ l ∈ M.leaves d, convKey l.name = pyKey)
     (h : gpc m = .ok g) : M.validate E m = .ok (g.allowsPlain (pyV X Y Z)) :=
-  gpc_exact_validate E X Y Z hE S hSp m g hg hvars hne hpy h
+  gpc_exact_validate E X Y Z hE S hSp m g hg hvars HR hne h
 
 /-- the invariant `PyG` on a concrete leaf: `python_version >= "3.8"` on CPython 3.8.1 -/
 example : PyG env381 (.single ⟨"python_version", ">=", "3.8", false, .ver (.single (.rng ⟨some (v [3, 8]), none, true, false⟩))⟩) :=
-  ⟨⟨_, rfl, by rfl, true, by rfl⟩, fun _ => ⟨_, [3, 8], rfl, rfl, by simp [RelOp], .short 3 8, by decide⟩⟩
+  ⟨⟨_, rfl, by rfl, true, by rfl⟩, fun _ => ⟨_, [3, 8], rfl, rfl, by simp [RelOp], .short 3 8, by decide⟩, by show aliasName "python_version" = "python_version"; decide⟩
 
 /-- a marker on another variable only: `only` answers `AnyMarker`, the range is universal -/
 example : gpc (.leaf (.single ⟨"sys_platform", "==", "linux", false, .gen (.s (.atom ⟨"linux", .eq, false⟩))⟩)) = .ok VC.any := by
